@@ -39,6 +39,11 @@ PROBES = [
 ]
 KNOWN_PREDICATES = {}
 
+
+def _srt(xs):
+    return sorted(xs, key=repr)
+
+
 GRAPHS = [u("g0"), u("g1"), ["b", "gb"]]
 
 
@@ -87,7 +92,7 @@ def generate(seed, tier):
     aim = g.choice([0.2, 0.5, 0.8])
 
     def mine(part):
-        return sorted(q for q in content if _in_part0((skey(list(q[0][0])),), part) or not two)
+        return _srt(q for q in content if _in_part0((skey(list(q[0][0])),), part) or not two)
 
     for _ in range(nsteps):
         part = sched.pick(parts)
@@ -196,8 +201,8 @@ def execute(trace, ctx):
 
     def sweep(where):
         got, got2 = observe()
-        ctx.check(got == model, "C18.content", lambda: f"{where}: store content differs from model: missing={sorted(model - got)} extra={sorted(got - model)}")
-        ctx.check(got2 == model, "C18.content-quads", lambda: f"{where}: quads() differ from model: missing={sorted(model - got2)} extra={sorted(got2 - model)}")
+        ctx.check(got == model, "C18.content", lambda: f"{where}: store content differs from model: missing={_srt(model - got)} extra={_srt(got - model)}")
+        ctx.check(got2 == model, "C18.content-quads", lambda: f"{where}: quads() differ from model: missing={_srt(model - got2)} extra={_srt(got2 - model)}")
 
     def matches(q, t, gkey):
         return all(t[i] is None or skey(t[i]) == q[i] for i in range(3)) and (gkey is None or q[3] == gkey)
@@ -305,14 +310,14 @@ def execute(trace, ctx):
                 got_mine = {q for q in got if _in_part(q, part)}
                 got_other = {q for q in got if not _in_part(q, part)}
                 name = "C18.rollback-restores" if k == "rollback" else "C18.commit-keeps"
-                ctx.check(got_mine == new_mine, name, lambda: f"after {k} (#{rep + 1}) of {part}: partition content missing={sorted(new_mine - got_mine)} extra={sorted(got_mine - new_mine)}", op=op)
-                ctx.check(got_other == before_other, "C18.other-wrapper-intact", lambda: f"after {k} of {part}: other content missing={sorted(before_other - got_other)} extra={sorted(got_other - before_other)}")
+                ctx.check(got_mine == new_mine, name, lambda: f"after {k} (#{rep + 1}) of {part}: partition content missing={_srt(new_mine - got_mine)} extra={_srt(got_mine - new_mine)}", op=op)
+                ctx.check(got_other == before_other, "C18.other-wrapper-intact", lambda: f"after {k} of {part}: other content missing={_srt(before_other - got_other)} extra={_srt(got_other - before_other)}")
         else:
             raise ValueError(k)
         if k not in ("commit", "rollback"):
             dirty_since[part] = True
         ctx.log(k, f"{part} {op.get('t')} {op.get('g')} |model|={len(model)}")
-        ctx.state(sorted(model), sorted(snap["A"]), sorted(snap["B"]))
+        ctx.state(_srt(model), _srt(snap["A"]), _srt(snap["B"]))
         sweep(f"after op uid={op['uid']} {k}")
 
 
